@@ -150,7 +150,19 @@ func runCrdEnv(stdin []byte, timeout time.Duration, procs string, args ...string
 	return runBinEnv(crdBin, stdin, timeout, procs, args...)
 }
 
+// a run that timed out under load is repeated once with four times the limit before it counts as a hang
 func runBinEnv(bin string, stdin []byte, timeout time.Duration, procs string, args ...string) runResult {
+	res := runBinOnce(bin, stdin, timeout, procs, args...)
+	if res.timedOut && timeout <= 30*time.Second && !noRetry {
+		res = runBinOnce(bin, stdin, 4*timeout, procs, args...)
+	}
+	return res
+}
+
+// the robust stream does its own (sequential) re-run of timed-out cases
+var noRetry bool
+
+func runBinOnce(bin string, stdin []byte, timeout time.Duration, procs string, args ...string) runResult {
 	cmd := exec.Command(bin, args...)
 	cmd.Stdin = bytes.NewReader(stdin)
 	var so, se bytes.Buffer
